@@ -115,6 +115,22 @@ try:
     out["phase1"] = open(fn).read() if not isinstance(r, str) else r
 finally:
     shutil.rmtree(d, ignore_errors=True)
+# T7: import inference with the two stock resolver orders: the answer for one order must not depend on having asked the other first
+def _imports(order_first):
+    from cdd.shared.ast_utils import infer_imports, DEFAULT_MODULES_TO_ALL, DEFAULT_MODULES_TO_ALL_SQL_FIRST
+    res = {}
+    for label in order_first:
+        node = ast.parse("class T(Base):\n    body = Column(Text, nullable=False)\n    extra: Any = None\n    pair: Tuple[int, int] = None").body[0]
+        mta = DEFAULT_MODULES_TO_ALL_SQL_FIRST if label == "sql" else DEFAULT_MODULES_TO_ALL
+        r = infer_imports(node, modules_to_all=mta)
+        res[label] = "".join(map(to_code, r or ()))
+    return res
+# half of the processes ask in one order, half in the other; the answers per resolver order must be the same in all of them
+_seed = os.environ.get("PYTHONHASHSEED", "0")
+_order = ["sql", "typing"] if (_seed.isdigit() and int(_seed) % 2 == 0) else ["typing", "sql"]
+_r = quiet(_imports, _order)
+out["imports_by_resolver_order"] = _r if isinstance(_r, str) else {k: _r[k] for k in sorted(_r)}
+
 # T6: gen_routes / upsert_routes into an existing routes file that has none of the requested routes yet
 d = tempfile.mkdtemp(prefix="verif-c10-")
 try:
@@ -303,8 +319,10 @@ def run(ctx):
                         inp = job["sources"][0] if top == "history" else job["functions_with_body"][0]
                 except Exception:  # noqa
                     pass
-                ctx.violation({"stage": "fresh processes with different PYTHONHASHSEED", "clause":
-                               "byte-identical output for the same input regardless of the string-hash seed",
+                ctx.violation({"stage": "fresh processes with different PYTHONHASHSEED" if top != "imports_by_resolver_order" else
+                               "fresh processes asking import inference for the two stock resolver orders in opposite order",
+                               "clause": "byte-identical output for the same input regardless of the string-hash seed" if top != "imports_by_resolver_order"
+                               else "output independent of which other conversions ran earlier in the same process",
                                "input": inp, "where": pth, "seeds": [ref["seed"], r["seed"]],
                                "output_a": lookup_path(ref["out"], pth), "output_b": lookup_path(r["out"], pth)})
         # history
